@@ -303,13 +303,16 @@ def run_midrun(case):
     res = Res()
     cfg = dict(case["cfg"])
     s, ll, c = make_sampler(cfg)
-    with env.quiet():
+    fs = MemFS()
+    with env.quiet(), mounted(fs):
         with OwnedRandom(77, audit=True) as tape:
             try:
-                s.run(n_total=c.get("n_total", 64), progress=False)
+                kw = {"save_every": cfg["save_every"]} if cfg.get("save_every") else {}
+                s.run(n_total=c.get("n_total", 64), progress=False, **kw)
                 s.posterior(resample=True)
             except Exception as e:
                 res.bump("aborted_runs")
+                res.bump("aborted:" + type(e).__name__)
     res.evals += 1
     res.trans += len(tape.log)
     res.states += 1
@@ -371,5 +374,9 @@ def plan(ctx):
     mid = [{"kind": "midrun", "cfg": dict(r, n_particles=16, n_total=64, random_state=rs)} for r in rows for rs in (5, None)]
     mid += [{"kind": "midrun", "cfg": dict(sample=k, resample=r, clustering=cl, target=t, n_particles=16, n_total=64, random_state=rs)}
             for k in ("tpcn", "rwm") for r in ("mult", "syst") for cl in (False, True) for t in ("gauss", "hole") for rs in (5,)]
+    mid += [{"kind": "midrun", "cfg": dict(sample=k, resample=r, clustering=True, cluster_every=ce, target=t, n_particles=16, n_total=64, random_state=rs,
+                                          save_every=sv, output_dir="/memfs/c9", output_label="m")}
+            for k in ("tpcn", "rwm") for r in ("mult", "syst") for ce in (2, 3) for t in ("bimodal", "gauss") for rs in (5, None) for sv in (None, 1, 2)
+            if th or (hash((k, r, ce, t, rs, sv)) + ctx.seed) % 3 == 0]
     ctx.explore("seeding-discipline", mid)
     ctx.bounds.update({"repro_configs": len(rows), "random_states": [0, 1, 12345]})
